@@ -101,11 +101,69 @@ def ro(name, objs):
         return str(a.containment_ani(b, downsample=True)), str(a.jaccard_ani(b, downsample=True))
     # --- signature / collection level: build signatures from the objects, digest them before and after
     sigs = [SourmashSignature(o, name=f"s{i}") for i, o in enumerate(objs)]
-    for s in sigs:
-        s.into_frozen()       # what loaders and collections hand out
+    if name.endswith("m"):
+        # variant with a MUTABLE query signature (as built in memory by a caller); the database stays frozen
+        name = name[:-1]
+        for s in sigs[1:]:
+            s.into_frozen()
+    else:
+        for s in sigs:
+            s.into_frozen()       # what loaders and collections hand out
     before = [sig_digest(s) for s in sigs]
     query, db = sigs[0], sigs[1:] or sigs[:1]
-    if name == "save":
+    if name == "sigcopy":
+        # copies of a signature share no state with it
+        res = []
+        for s0 in sigs:
+            d0 = sig_digest(s0)
+            m = s0.to_mutable()
+            if m is s0:
+                raise Differs("to_mutable() returned the signature itself")
+            m.name = "changed"
+            mm = m.minhash.to_mutable()
+            mm.add_hash(12345)
+            m.minhash = mm
+            c = s0.copy() if hasattr(s0, "copy") else s0
+            f = s0.to_frozen()
+            if sig_digest(s0) != d0:
+                raise Differs("mutating a to_mutable() copy changed the original signature")
+            res.append((sig_digest(m)[3] != d0[3], type(f).__name__))
+    elif name == "selview":
+        # select() on a view is a read-only call on that view
+        import tempfile, shutil
+        from sourmash.index import ZipFileLinearIndex, LazyLinearIndex
+        from sourmash.sourmash_args import SaveSignaturesToLocation
+        td = tempfile.mkdtemp(prefix="own_", dir=os.environ.get("VERIF_TMP") or None)
+        try:
+            zp = os.path.join(td, "c.zip")
+            with SaveSignaturesToLocation(zp) as sv:
+                for s0 in sigs:
+                    sv.add(s0)
+            views = [
+                ("linear", LinearIndex(sigs)),
+                ("lazy", LazyLinearIndex(LinearIndex(sigs))),
+                ("zip", ZipFileLinearIndex.load(zp)),
+                ("zipnm", ZipFileLinearIndex.load(zp, use_manifest=False)),
+                ("multi", MultiIndex.load([LinearIndex(sigs)], [None], parent="")),
+            ]
+            res = []
+            for kind, base in views:
+                v = base.select(ksize=21)
+                before_v = sorted(sig_digest(x) for x in v.signatures())
+                n_before = len(v)
+                for kw in (dict(moltype="protein"), dict(moltype="DNA"), dict(scaled=True), dict(ksize=21), dict(abund=True)):
+                    try:
+                        w = v.select(**kw)
+                        list(w.signatures())
+                    except (ValueError, TypeError):
+                        pass
+                    after_v = sorted(sig_digest(x) for x in v.signatures())
+                    if after_v != before_v or len(v) != n_before:
+                        raise Differs(f"select({kw}) on a {kind} view changed the view it was called on")
+                res.append((kind, n_before))
+        finally:
+            shutil.rmtree(td, ignore_errors=True)
+    elif name == "save":
         res = sigmod.save_signatures_to_json(sigs)
         res2 = [sig_digest(x) for x in sigmod.load_signatures_from_json(res)]
         res = (res, res2)
